@@ -275,12 +275,16 @@ def s2_excerpts(ctx):
     if probs:
         for msg in list(probs)[:3]:
             ctx.violated('C16.S2', fi, msg[:150], 'excerpts: ' + msg)
+    elif not pairs:
+        ctx.undecided('C16.S2', fi, 'excerpts: no yielded (start, end) pair could be followed (the pairs are not produced by a yield in a loop over the excerpt index)')
     else:
         ctx.holds('C16.S2', fi, 'excerpts: end - start <= excerpt_size, end <= n_samples, start(i+1) >= end(i) (%d yielded pairs over all paths)' % pairs, 'excerpts')
     if count_ok:
         ctx.holds('C16.S2', fi, 'one excerpt at most for each index in range(n_excerpts)', loops[0].iter)
-    elif cnt is False or (cnt is True and inner) or not loops:
-        ctx.violated('C16.S2', fi, loops[0].iter if loops else 'excerpts', 'the number of excerpts is not bounded by n_excerpts')
+    elif loops and (cnt is False or (cnt is True and inner)):
+        ctx.violated('C16.S2', fi, loops[0].iter, 'the number of excerpts is not bounded by n_excerpts')
+    elif not loops:
+        ctx.undecided('C16.S2', fi, 'excerpts has no loop over the excerpt index: the number of excerpts is not decided')
     else:
         ctx.undecided('C16.S2', fi, 'the iterable of the excerpt loop `%s` was not recognised' % unparse(loops[0].iter)[:60], loops[0].iter)
     for msg in list(und)[:3]:
